@@ -192,6 +192,17 @@ class ZoneAnalysis:
                     return (b[0], a[1] + b[1])
                 return None
             if b[0] == Z:
+                # unsigned `x - k`: the difference only when x >= k is known in the current zone - otherwise it wraps around to a huge
+                # value and says nothing about x (recorded in self.wraps: a bound computed this way bounds nothing)
+                cz = getattr(self, "cur_zone", None)
+                if n.get("u") and a[0] != Z and b[1] > 0 and cz is not None and self.unsigned(a[0]):
+                    cz.close()
+                    if not cz.bottom and not cz.entails(Z, a[0], a[1] - b[1]):
+                        if not hasattr(self, "wraps"):
+                            self.wraps = []
+                        if all(w is not n for w in self.wraps):
+                            self.wraps.append(n)
+                        return None
                 return (a[0], a[1] - b[1])
             if a[0] == b[0]:
                 return (Z, a[1] - b[1])
@@ -212,8 +223,14 @@ class ZoneAnalysis:
         return None
 
     # ---- conditions
+    def lin_at(self, z, e):
+        """lin(e) read in zone z (unsigned differences are only differences where the zone excludes the wrap-around)"""
+        self.cur_zone = z.copy() if z is not None else None
+        return self.lin(e)
+
     def assume(self, z, cond, truth):
         """refine zone z with cond == truth; returns zone (may be bottom)"""
+        self.cur_zone = z
         n = ir.unwrap(cond)
         if not isinstance(n, dict):
             return z
@@ -286,6 +303,7 @@ class ZoneAnalysis:
         every interesting node *before* its effect (subscripts, writes, ++/--)."""
         if z.bottom:
             return z
+        self.cur_zone = z
         # std::exchange(x, v) yields the old x and stores v: the old value is kept under a temporary name, then x := v
         if isinstance(e.get("expr"), dict):
             for y in walk(e["expr"], into_sc=False):
